@@ -5,7 +5,7 @@ import random
 
 import apicheck as A
 import htmlobs as HO
-from gen_docx import DocGen, el
+from gen_docx import DocGen, el, sdt_wrap_some, sdt_around
 
 
 def tilings(R, C):
@@ -62,10 +62,13 @@ POOL = [("", lambda: []), ("", lambda: [el("w:p")]), ("CONT", lambda: [el("w:p",
         ("x", lambda: [el("w:p", [], [el("w:r", [], [el("w:t", [], ["x"])])])]), ("", lambda: [el("w:p"), el("w:p")])]
 
 
-def table_xml(owner, rng, n_head, spelling, nested=None, late=(), pool=0.0, texts=None, noise=0.0):
+def table_xml(owner, rng, n_head, spelling, nested=None, late=(), pool=0.0, texts=None, noise=0.0, sdt=0.0, feats=None):
     """late: rows below the leading header block that carry w:tblHeader all the same; pool: probability that a cell takes a
     shared (empty / repeated) content instead of its unique label; texts: dict filled with owner -> expected text;
-    noise: probability of property elements that do not matter (tcW, explicit gridSpan 1, restart without continuation, ...)"""
+    noise: probability of property elements that do not matter (tcW, explicit gridSpan 1, restart without continuation, ...);
+    sdt: probability that a cell sits in a cell-level content control (w:tr > w:sdt > w:sdtContent > w:tc; half of it: a row in a
+    row-level one, w:tbl > w:sdt > w:sdtContent > w:tr) with a w:sdtPr of any kind but the check box - filled in or still showing its
+    placeholder, the control is transparent: the cell / the row is a cell / a row of the table like any other"""
     R, C = len(owner), len(owner[0])
     rows = []
     labels = {}
@@ -119,7 +122,17 @@ def table_xml(owner, rng, n_head, spelling, nested=None, late=(), pool=0.0, text
         trpr = [el("w:tblHeader")] if (r < n_head or r in late) else []
         if noise and rng.random() < noise:
             trpr.insert(rng.randint(0, len(trpr)), el(rng.choice(["w:cantSplit", "w:trHeight", "w:jc"]), [("w:val", "1")]))
+        if sdt:
+            hits = []
+            cells = sdt_wrap_some(rng, cells, sdt, 0.0, 0.5, hits)
+            if hits and feats is not None:
+                feats.add("cell-level-sdt")
         rows.append(el("w:tr", [], ([el("w:trPr", [], trpr)] if (trpr or rng.random() < 0.3) else []) + cells))
+    if sdt:
+        hits = []
+        rows = sdt_wrap_some(rng, rows, sdt / 2, 0.0, 0.5, hits)
+        if hits and feats is not None:
+            feats.add("row-level-sdt")
     pre = [el("w:tblPr")] if rng.random() < 0.5 else []
     if noise and rng.random() < 0.5:
         pre.append(el("w:tblGrid", [], [el("w:gridCol", [("w:w", "1000")]) for _ in range(C)]))
@@ -146,14 +159,19 @@ def case_of(owner, rng, key, spelling="mixed", nested_owner=None):
     n_head, late = heads_of(owner, rng)
     pool = rng.choice([0.0, 0.0, 0.3, 0.6, 1.0])
     noise = rng.choice([0.0, 0.0, 0.3])
+    sdt = rng.choice([0.0, 0.0, 0.0, 0.15, 0.4])
+    sfeats = set()
     texts, ntexts, nspec = {}, {}, None
     nested = None
     if nested_owner is not None:
         nh, nlate = heads_of(nested_owner, rng)
-        nested = table_xml(nested_owner, rng, nh, spelling, None, nlate, pool, ntexts, noise)
+        nested = table_xml(nested_owner, rng, nh, spelling, None, nlate, pool, ntexts, noise, sdt, sfeats)
         nspec = {"owner": nested_owner, "n_head": nh, "late": list(nlate), "texts": [ntexts[k] for k in range(len(ntexts))]}
-    tbl = table_xml(owner, rng, n_head, spelling, nested, late, pool, texts, noise)
+    tbl = table_xml(owner, rng, n_head, spelling, nested, late, pool, texts, noise, sdt, sfeats)
     body, more = [tbl], []
+    if sdt and rng.random() < sdt / 2:
+        body = [sdt_around(rng, body, 0.0, 0.5)]       # the whole table inside a block-level content control
+        sfeats.add("table-in-block-sdt")
     if rng.random() < 0.25:
         # further tables right after the first: nothing between them, or the empty paragraph(s) Word puts there, or text
         for _ in range(rng.choice([1, 1, 2])):
@@ -163,12 +181,12 @@ def case_of(owner, rng, key, spelling="mixed", nested_owner=None):
             sep = rng.choice(["none", "empty", "empty", "empty2", "text"])
             body += {"none": [], "empty": [el("w:p")], "empty2": [el("w:p"), el("w:p", [], [el("w:pPr")])],
                      "text": [el("w:p", [], [el("w:r", [], [el("w:t", [], ["between"])])])]}[sep]
-            body.append(table_xml(ow2, rng, nh2, spelling, None, late2, pool, t2, noise))
+            body.append(table_xml(ow2, rng, nh2, spelling, None, late2, pool, t2, noise, sdt, sfeats))
             more.append({"owner": ow2, "n_head": nh2, "late": list(late2), "texts": [t2[k] for k in range(len(t2))], "sep": sep})
         if rng.random() < 0.5:
             body.append(el("w:p"))
     parts = [{"name": "word/document.xml", "xml": el("w:document", [], [el("w:body", [], body)])}]
-    feats = (["several-tables"] if more else []) + (["adjacent-tables"] if any(m["sep"] != "text" for m in more) else []) + (["late-header-row"] if late else []) + (["shared-cell-content"] if pool else []) + (["property-noise"] if noise else []) + \
+    feats = sorted(sfeats) + (["several-tables"] if more else []) + (["adjacent-tables"] if any(m["sep"] != "text" for m in more) else []) + (["late-header-row"] if late else []) + (["shared-cell-content"] if pool else []) + (["property-noise"] if noise else []) + \
             (["nested-late-header" if nspec["late"] else "nested-header"] if nspec and (nspec["n_head"] or nspec["late"]) else [])
     side = {"owner": owner, "n_head": n_head, "late": list(late), "texts": [texts[k] for k in range(len(texts))], "nested": nspec, "more": more}
     return dict(side, parts=parts, options={}, key=key, noshrink=True, features=feats, meta=side)    # meta: what a replay needs to observe again
@@ -327,6 +345,8 @@ def run(out, tier, seed, model_ok):
                 "continuation cells with stray content, cells with empty / repeated content (cells and rows that are equal as values), irrelevant tcPr/trPr/tblGrid elements, further tables directly after the first (separated by nothing, empty paragraphs or text) and two tables in one cell; observation = one tr per row, th/thead for header rows, and "
                 "the grid laid out by an independent implementation of the HTML table algorithm must be covered exactly by the document's owner cells (no overlap, no gap), every cell element occupying exactly the rectangle and carrying the text of its document cell; "
                 "also compared with the Lean model (C09_rowspans_spec / C09_layout_eq); non-trivial = some cell spans more than one position" % (maxn, maxn))
+    out.rule += ("; in 40% of the cases cells sit in cell-level and rows in row-level content controls (w:sdt with any w:sdtPr but the check box: alias, tag, placeholder + "
+                 "w:showingPlcHdr, date, drop-down ...; one control around several neighbours; nested controls), the whole table now and then in a block-level one")
     out.extra.update(exhaustive_part=nex, features=run_.stats)
     out.sample({"owner": cs[nex - 1]["owner"], "n_head": cs[nex - 1]["n_head"]})
     out.sample({"owner": cs[-1]["owner"], "n_head": cs[-1]["n_head"]})
